@@ -1598,6 +1598,14 @@ impl<'a> Model<'a> {
                         let is_array_formula = matches!(original_cell, Cell::ArrayFormula { .. });
                         let array_height = a.len();
                         let array_width = if array_height > 0 { a[0].len() } else { 0 };
+                        if is_array_formula && array_height > 0 && array_width > 0 {
+                            // The anchor stores the first element, or `#SPILL!` when the
+                            // array could not spill: hand out what was stored.
+                            if let Some(stored) = self.fetch_cell(cell_reference) {
+                                let stored = stored.clone();
+                                return self.get_cell_value(&stored, cell_reference);
+                            }
+                        }
                         if !is_array_formula && (array_width != 1 || array_height != 1) {
                             // Currently unreachable from normal user formulas: static
                             // analysis wraps array-returning subexpressions in scalar
